@@ -1,9 +1,13 @@
 //! Runtime monitors for ellmau/adf-obdd. One sub command per property:
 //! `mon <cNN> --seed S --shard I --cases N [--thorough] [--out FILE] [--replay FILE] [--key value ...]`
 
+mod bddmon;
 mod common;
 mod pipes;
 mod sem;
+mod small;
+#[cfg(feature = "frontend")]
+mod stream;
 
 use common::*;
 use std::collections::BTreeMap;
@@ -86,6 +90,13 @@ fn run(cfg: &Cfg, rep: &mut Report) {
         "c03" => sem::c03(cfg, rep),
         "c04" => sem::c04(cfg, rep),
         "c05" => sem::c05(cfg, rep),
+        "c06" => bddmon::c06(cfg, rep),
+        "c07" => bddmon::c07(cfg, rep),
+        "c13" => bddmon::c13(cfg, rep),
+        "c18" => small::c18(cfg, rep),
+        #[cfg(feature = "frontend")]
+        "c19" => stream::c19(cfg, rep),
+        "c20" => small::c20(cfg, rep),
         other => {
             eprintln!("unknown property {}", other);
             std::process::exit(64);
